@@ -267,6 +267,7 @@ OPS = {
     "speedup.reset_curves_workspace": lambda n: _speedup.reset_curves_workspace(int(n)),
     "speedup.free_curve_intersections_workspace": lambda: _speedup.free_curve_intersections_workspace(),
     "speedup.triangle_workspace_sizes": lambda: list(_speedup.triangle_workspace_sizes()),
+    "speedup.triangle_intersections": lambda n1, d1, n2, d2, r=2: _tri_ws(n1, d1, n2, d2, r),
     "speedup.reset_triangle_workspaces": lambda a=-1, b=-1: _speedup.reset_triangle_workspaces(segment_ends_size=int(a), segments_size=int(b)),
     "Triangle.intersect_summary": lambda n1, n2, strat=None: _tri_isect_summary(n1, n2, strat),
     "Curve.from_presentation": lambda n, s: bezier.Curve.from_nodes(n).evaluate(s),
@@ -297,6 +298,14 @@ def _tri_isect_summary(n1, n2, strat=None):
             out.append(["polygon", float(r.area), [e.nodes for e in r._edges]])
     return out
 
+
+def _tri_ws(n1, d1, n2, d2, r):
+    """_speedup.triangle_intersections: the curved polygons as lists of [edge_index, start, end]; a contained triangle is
+    reported as no polygon (the workspaces are not used in that case)"""
+    polys, contained, _edges = _speedup.triangle_intersections(n1, int(d1), n2, int(d2), resizes_allowed=int(r))
+    if polys is None:
+        return []
+    return [[[int(e), float(a), float(b)] for (e, a, b) in p] for p in polys]
 
 def _edges_twice(n):
     t = tri(n)
